@@ -10,7 +10,7 @@
   at the inner corner of the corner box and semi-axes = the corner radius; `dx2`/`dy2` are the
   squared doubled offsets between the two centres.
 -/
-import EG.Lemmas.RoundedRectShape
+import EG.Lemmas.RoundedRectColumn
 namespace EG.C18
 open EG EG.RoundedRect
 
@@ -138,7 +138,14 @@ theorem rrect_rows_contiguous (r : RoundedRect) (h : r.InRange) (y x1 x2 x : Int
 example : let r : RoundedRect := ⟨⟨⟨0, 0⟩, ⟨8, 6⟩⟩, CornerRadii.new ⟨2, 2⟩⟩
     r.InRange ∧ r.contains ⟨1, 0⟩ = true ∧ r.contains ⟨6, 0⟩ = true := by decide
 
--- [V] every column of a rounded rectangle is one contiguous run (vertical monotonicity of the corner tests): carried by correspondence + oracle only
+/-- **Every column of a rounded rectangle is one contiguous run.** -/
+theorem rrect_columns_contiguous (r : RoundedRect) (h : r.InRange) (x y1 y2 y : Int)
+    (h1 : r.contains ⟨x, y1⟩ = true) (h2 : r.contains ⟨x, y2⟩ = true) (hy : y1 ≤ y ∧ y ≤ y2) :
+    r.contains ⟨x, y⟩ = true :=
+  RoundedRect.column_contiguous r h x y1 y2 y h1 h2 hy
+example : let r : RoundedRect := ⟨⟨⟨0, 0⟩, ⟨8, 6⟩⟩, CornerRadii.new ⟨2, 2⟩⟩
+    r.InRange ∧ r.contains ⟨0, 1⟩ = true ∧ r.contains ⟨0, 4⟩ = true := by decide
+
 -- [V] half_radii_eq_ellipse: with even sides and every radius half a side the rounded rectangle equals the ellipse of the same box (`contains` and `points()`): carried by correspondence + oracle only
 -- [V] band of half a pixel stated with grown / shrunk semi-axes (implied by the exact ideal-ellipse theorems above for every corner; the oracle also evaluates the +-1/2 band directly): carried by correspondence + oracle only
 end EG.C18
